@@ -411,6 +411,11 @@ fn uint_head(major: u8, n: u64) -> Vec<u8> {
 
 /// Family generators: name -> (entry points, input for size parameter n).
 pub fn family(name: &str, n: usize) -> Option<(Vec<(Ty, Entry)>, Vec<u8>)> {
+    family_around(name, n, &[0xa0])
+}
+
+/// `family` with the innermost header map of the `depth` families replaced by `core`.
+pub fn family_around(name: &str, n: usize, core: &[u8]) -> Option<(Vec<(Ty, Entry)>, Vec<u8>)> {
     let header_entries = |h: &[u8]| -> Vec<(Ty, Entry, Vec<u8>)> {
         vec![
             (Ty::Header, Entry::Slice, h.to_vec()),
@@ -427,7 +432,7 @@ pub fn family(name: &str, n: usize) -> Option<(Vec<(Ty, Entry)>, Vec<u8>)> {
         "depth" => {
             let word: Vec<&str> = parts[1].split('-').collect();
             let carrier: usize = parts[2].parse().ok()?;
-            let mut nest = Nester::new(&[0xa0]);
+            let mut nest = Nester::new(core);
             for i in 0..n {
                 nest.wrap_edge(word[(n - 1 - i) % word.len()]);
             }
@@ -480,6 +485,26 @@ pub fn family(name: &str, n: usize) -> Option<(Vec<(Ty, Entry)>, Vec<u8>)> {
             match parts[2] {
                 "extra" => Some((vec![(Ty::Header, Entry::Slice), (Ty::Key, Entry::Slice), (Ty::Claims, Entry::Slice)], hdr)),
                 _ => Some((all_types().into_iter().map(|t| (t, Entry::Slice)).collect(), v)),
+            }
+        }
+        "bstrwrap" => {
+            // a header map wrapped in n layers of byte strings (a decoder that "looks through" a
+            // wrapped protected header recurses once per layer); built outside-in in linear time
+            let mut lens: Vec<usize> = vec![1];
+            for k in 0..n {
+                let l = lens[k];
+                lens.push(l + uint_head(2, l as u64).len());
+            }
+            let mut v: Vec<u8> = Vec::with_capacity(lens[n]);
+            for k in (0..n).rev() {
+                v.extend_from_slice(&uint_head(2, lens[k] as u64));
+            }
+            v.push(0xa0);
+            match parts[1] {
+                "sign1" => Some((vec![(Ty::Sign1, Entry::Slice), (Ty::Mac0, Entry::Slice)], [&[0x84u8][..], &v, &[0xa0, 0xf6, 0x40]].concat())),
+                "recipient" => Some((vec![(Ty::Recipient, Entry::Slice), (Ty::Encrypt0, Entry::Slice), (Ty::Signature, Entry::Slice)], [&[0x83u8][..], &v, &[0xa0, 0x40]].concat())),
+                "supp" => Some((vec![(Ty::SuppPub, Entry::Slice)], [&[0x82u8, 0x18, 0x80][..], &v].concat())),
+                _ => Some((vec![(Ty::Header, Entry::Slice)], [&[0xa1u8, 0x07, 0x83][..], &v, &[0xa0, 0x40]].concat())),
             }
         }
         "width" => {
@@ -557,6 +582,9 @@ pub fn family_names(thorough: bool) -> Vec<String> {
         for pos in ["extra", "top"] {
             v.push(format!("nest:{}:{}", k, pos));
         }
+    }
+    for k in ["sign1", "recipient", "supp", "countersig"] {
+        v.push(format!("bstrwrap:{}", k));
     }
     for k in ["signatures", "recipients", "countersigs", "extras", "crit", "key_ops", "claims", "keys", "priv", "payload", "payload_chunked", "text", "text:label", "kid", "protected_big", "protected_big:supp"] {
         v.push(format!("width:{}", k));
